@@ -21,7 +21,7 @@ META = dict(
     outside=["bounding box of a product whose first factor depends on the second (documented as a sampled approximation; only "
              "the set_bounding_box override is checked)", "shapely/trimesh primitives", "k>2 rows, nesting depth >2",
              "the Latin-hypercube law itself (C11)"],
-    assumptions=["shapes have positive measure; consumers (normalisation, LHS): the set has an interior point"],
+    assumptions=["shapes have positive measure", "normalisation of intersections: the box has positive width on every axis"],
 )
 
 
@@ -497,11 +497,18 @@ def set_box_case(dependent):
 # --------------------------------------------------------------------------
 
 
-def _nonempty_interior(env, sh, d):
-    """assumption: the (composite) set has an interior point -- positive measure of the operands does not give that
-    for intersections and cuts, and a box of width 0 cannot be normalised"""
-    w = SH.elems(env, env.tensor("w_interior", (d,)))
-    env.assume(sh.oset.interior(w, {}, env.L, 0))
+def _box_has_width(env, sh, d):
+    """assumption for intersections: the box the layer is built from has positive width on every axis
+    (positive measure of the operands does not give that for an intersection or a cut; a box of width 0 cannot be
+    normalised).  Stated on the code's own box: enclosure is what the encloses/* cases decide."""
+    L = env.L
+    with minmax_mode(env, "ite"):
+        box = sh.dom.bounding_box()
+    if list(box.shape) != [2 * d]:
+        return
+    b = SH.elems(env, box)
+    for a in range(d):
+        env.assume(L.lt(b[2 * a], b[2 * a + 1]))
 
 
 def normalize_case(name, mk, info):
@@ -512,7 +519,8 @@ def normalize_case(name, mk, info):
         d = _dim(sh)
         L = env.L
         env.assume(sh.oset.positive({}, L))
-        _nonempty_interior(env, sh, d)
+        if info.get("kind") == "&":
+            _box_has_width(env, sh, d)
         with minmax_mode(env, "ite"):
             layer = tp.models.NormalizationLayer(sh.dom)
         coords, q = {}, []
@@ -544,7 +552,6 @@ def lhs_case(name, mk, info, n):
         d = _dim(sh)
         L = env.L
         env.assume(sh.oset.positive({}, L))
-        _nonempty_interior(env, sh, d)
         s = tp.samplers.LHSSampler(sh.dom, n_points=n)
         with minmax_mode(env, "ite"):
             box = sh.dom.bounding_box()
@@ -655,7 +662,7 @@ def cases(tier):
     cs.append(set_box_case(True))
     reps_q = ("Interval", "Circle", "Parallelogram", "(Circle+Parallelogram)", "(Interval-Interval)", "(Circle*Interval)",
               "Translate(Circle)", "Rotate<matrix>(Circle)")
-    reps_t = reps_q + ("Triangle", "Sphere", "(Circle-Parallelogram)", "(Circle&Parallelogram)", "Translate(Parallelogram)", "(Interval+Interval)", "(Interval&Interval)", "(Parallelogram*Interval)")
+    reps_t = reps_q + ("Triangle", "Sphere", "(Circle-Parallelogram)", "(Circle&Circle)", "Translate(Parallelogram)", "(Interval+Interval)", "(Interval&Interval)", "(Parallelogram*Interval)")
     for name, mk, info in cat:
         if name in (reps_q if quick else reps_t) and not _is_dep(info, name):
             cs.append(normalize_case(name, mk, info))
